@@ -42,6 +42,7 @@ type Gen struct {
 	repoDir     string
 	specOwner   map[*FuncSpec]*SpecFile
 	lemmaOK     map[string]bool
+	wrapSites   map[*ssa.Function]map[int]bool // overflow sites modelled as wrapping (see check.go)
 }
 
 func LoadRepo(repoDir, externPath string) (*Gen, error) {
